@@ -120,8 +120,17 @@ def draw_case(case, ch: Choices):
             n += 1
             s["fault"] = None
             if cfg["faulty"] and ch.chance("cfg.fault", 1, 4):
-                s["fault"] = ch.pick("cfg.faultkind", ["connect_error", "read_timeout", "remote_protocol_error", "write_error"])
+                s["fault"] = ch.pick("cfg.faultkind", ["connect_error", "read_timeout", "remote_protocol_error", "write_error", "cancel"])
+                if s["fault"] == "cancel" and not cfg["variant"].startswith("a_"):
+                    s["fault"] = None          # caller-side cancellation exists for tasks only
     cfg["shared_headers"] = ch.chance("cfg.shared_headers", 1, 4)
+    if cfg["shared_headers"]:
+        # with one shared headers object requests are attributed to calls by their order per caller, which a call
+        # cancelled before its request left would shift: no caller-side cancellation in these runs
+        for specs in callers:
+            for s in specs:
+                if s.get("fault") == "cancel":
+                    s["fault"] = None
     cfg["lat_profile"] = ch.draw("cfg.latp", 3)
     cfg["preempt_den"] = ch.pick("cfg.pden", [1, 1, 3, 9])
     return cfg
@@ -143,7 +152,7 @@ def _nonce_faults(callers):
     for specs in callers:
         for s in specs:
             i += 1
-            if s.get("fault"):
+            if s.get("fault") and s["fault"] != "cancel":       # cancel is caller-side, the transport is healthy
                 out["n%d" % i] = s["fault"]
     return out
 
@@ -331,6 +340,23 @@ def judge(cfg, recs, server, info, res: RunResult, variant, concurrent):
         tag = "caller%d.call%d(%s)" % (rec.caller, rec.k, rec.spec["via"])
         caps = by_nonce.get(rec.nonce, [])
         fault = rec.spec.get("fault")
+        if fault == "cancel":
+            # cancelled by its caller (concurrent run on an async client) or left alone (sequential re-run): at most one
+            # request, well-formed if it reached the server; either the cancellation or the normal outcome
+            if len(caps) > 1:
+                V("request-count", "%s: %d requests reached the server for one (cancelled) call" % (tag, len(caps)), got=len(caps))
+            for cap in caps[:1]:
+                check_request(rec, cap, cfg["own_transport"], V)
+            oc = rec.outcome
+            if oc is None or oc[0] == "hang":
+                V("liveness", "%s: call never returned" % tag)
+            elif oc[0] == "cancelled":
+                pass
+            elif oc[0] != "ok":
+                V("call-failed", "%s: healthy call raised %s %s" % (tag, oc[1], _short(oc[2])), exc=oc[1])
+            elif (oc[1]["value"] if isinstance(oc[1], dict) and "model" in oc[1] else oc[1]) != expected_outcome(rec):
+                V("cross-talk", "%s: returned %s, the response for this call is %s" % (tag, _short(oc[1]), _short(expected_outcome(rec))))
+            continue
         before = fault in ("connect_error", "write_error")
         want_n = 0 if before else 1
         if len(caps) != want_n and not unmatched:
@@ -394,7 +420,10 @@ def run_case(case, ch: Choices) -> RunResult:
             res.violations.append(v)
     a, b = canon_by_call(recs, server), canon_by_call(recs2, server2)
     if not res.violations:
+        cancelled = {(r.caller, r.k) for r in recs if r.spec.get("fault") == "cancel"}
         for key in a:
+            if key in cancelled:
+                continue
             ja = json.dumps(a[key], sort_keys=True, default=repr)
             jb = json.dumps(b.get(key), sort_keys=True, default=repr)
             if ja != jb:
@@ -427,6 +456,11 @@ def run_case(case, ch: Choices) -> RunResult:
     nmulti = sum(1 for r in recs if r.spec["multipart"])
     nfault = sum(1 for r in recs if r.spec.get("fault"))
     res.bump("calls", ncalls)
+    ncancel = sum(1 for r in recs if r.outcome and r.outcome[0] == "cancelled")
+    if ncancel:
+        res.bump("fault.call_cancelled_by_its_caller", ncancel)
+        res.bump("fault.cancelled_before_request_left", sum(1 for r in recs if r.outcome and r.outcome[0] == "cancelled"
+                                                              and not any(c.nonce == r.nonce for c in server.requests)))
     res.bump("calls.multipart", nmulti)
     res.bump("runs.faulty" if cfg["faulty"] else "runs.fault_free")
     res.bump("variant." + cfg["variant"])
